@@ -197,3 +197,43 @@ func VerifH04() {
 	nd.Assert(sameState(f1, v1, f2, v2), "H04.second-recovery-same-state")
 	nd.Reach("H04.end")
 }
+
+// VerifH04b: acknowledged concurrent writes and a crash. Two goroutines overwrite the same key;
+// both writes are acknowledged, a reader then sees one of them as the current value; the process
+// dies and a new one recovers: the key must read as it did before the crash (the order in which
+// the writes took effect in memory is the order recovery reproduces).
+func VerifH04b() {
+	P := 1
+	if nd.Tier() == 1 {
+		P = 2
+	}
+	nd.Bound("H04b.preemption_bound", P)
+	concreteCounter = true
+	w := newWorld(stdConfig(), []string{"a"})
+	if nd.Choice("pre-value", 2) == 1 {
+		nd.Assert(w.doSet(0, "a", w.freshVal(), 0) == nil, "H04b.pre")
+	}
+	v1, v2 := w.freshVal(), w.freshVal()
+	del2 := nd.Choice("second-writer-deletes", 2) == 1
+	var e1, e2 error
+	nd.SpawnRunsFirst(true)
+	nd.SetPreemptionBound(P)
+	go func() {
+		if del2 {
+			e2 = w.d.Delete(ctx, "a")
+		} else {
+			e2 = w.d.Set(ctx, "a", v2)
+		}
+	}()
+	e1 = w.d.Set(ctx, "a", v1)
+	nd.JoinAll()
+	nd.SetPreemptionBound(0)
+	nd.Assert(e1 == nil && e2 == nil, "H04b.writes-acknowledged")
+	f1, vals1 := w.readState("H04b.before-crash")
+	newProcess()
+	w.d, w.c = openSeq(w.cfg)
+	verifenv.RunJobs()
+	f2, vals2 := w.readState("H04b.recovered")
+	nd.Assert(sameState(f1, vals1, f2, vals2), "H04b.acknowledged-concurrent-writes-recovered-in-their-order")
+	nd.Reach("H04b.end")
+}
